@@ -1,0 +1,71 @@
+//go:build verif
+
+// Package verifyield is only compiled with the "verif" build tag.  It is the
+// seam through which the external deterministic-simulation harness decides
+// the interleaving of goroutines at lock boundaries: the harness builds a
+// scratch copy of the repository in which every mutex acquisition
+// x.Lock() / x.RLock() has been rewritten mechanically into
+// verifyield.Acquire(x.TryLock, x.Lock, "x") / verifyield.AcquireR(x.TryRLock,
+// x.RLock, "x"), and every time.Sleep into verifyield.Sleep.  Nothing in the repository itself calls this package, and with
+// Hook unset both functions are exactly the original blocking call.
+package verifyield
+
+import "time"
+
+// Hook, if set by the harness, is consulted at every acquisition.  It is
+// given the non-blocking and the blocking form of the acquisition and whether
+// it is a shared (read) acquisition and the source text of the lock expression
+// (for reports), and returns true if it has performed the
+// acquisition itself (cooperatively, by retrying try between scheduling
+// decisions); false means "not one of my goroutines".
+var Hook func(try func() (ok bool), lock func(), read bool, name string) (done bool)
+
+// Acquire performs an exclusive acquisition, letting the harness decide who
+// runs first.
+func Acquire(try func() (ok bool), lock func(), name string) {
+	if h := Hook; h != nil && h(try, lock, false, name) {
+		return
+	}
+
+	lock()
+}
+
+// AcquireR is Acquire for a shared (read) acquisition.
+func AcquireR(try func() (ok bool), lock func(), name string) {
+	if h := Hook; h != nil && h(try, lock, true, name) {
+		return
+	}
+
+	lock()
+}
+
+// SleepHook, if set by the harness, is consulted by Sleep; it returns true if
+// the harness has handled the pause (as a scheduling point, without letting
+// time pass).
+var SleepHook func(d time.Duration) (done bool)
+
+// Sleep is time.Sleep, letting the harness treat the pause of one of its
+// goroutines as a scheduling point.  The scratch copy calls it in place of
+// time.Sleep.
+func Sleep(d time.Duration) {
+	if h := SleepHook; h != nil && h(d) {
+		return
+	}
+
+	time.Sleep(d)
+}
+
+// GoHook, if set by the harness, is consulted by Go; it returns true if the
+// harness has started f itself (as a scheduled task).
+var GoHook func(f func()) (done bool)
+
+// Go is the go statement for a function without arguments, letting the
+// harness schedule the new goroutine.  The scratch copy calls it in place of
+// "go func() { ... }()" and "go x.m()".
+func Go(f func()) {
+	if h := GoHook; h != nil && h(f) {
+		return
+	}
+
+	go f()
+}
